@@ -20,7 +20,7 @@ def is_vec(t): n = tname(t); return bool(n and VEC_RE.match(n))
 
 def lit(kind, v):
     """Coq scalar term of a literal value of the given lane kind (v: python int/float-name)"""
-    if kind in INTS: return '%d' % v
+    if kind in INTS: return '(%d)' % v
     bits32 = {0: 0, 1: 0x3f800000, -1: 0xbf800000, 'nan': 0x7fc00000, 'inf': 0x7f800000, '-inf': 0xff800000, 'min': 0xff7fffff, 'max': 0x7f7fffff}
     bits64 = {0: 0, 1: 0x3ff0000000000000, -1: 0xbff0000000000000, 'nan': 0x7ff8000000000000, 'inf': 0x7ff0000000000000, '-inf': 0xfff0000000000000, 'min': 0xffefffffffffffff, 'max': 0x7fefffffffffffff}
     return '(f32_of_bits O %d)' % bits32[v] if kind == 'f32' else '(f64_of_bits O %d)' % bits64[v]
